@@ -320,7 +320,8 @@ void Flatten::Apply(const UnicodeString &in, UnicodeString &out) const {
       ++i;
     } else {
       out.append(character);
-      ++i;
+      // A supplementary code point takes two UTF-16 code units.
+      i += U16_LENGTH(character);
     }
   }
 }
